@@ -3,6 +3,7 @@ package main
 // Verification of one function against its contract, and of lemmas.
 
 import (
+	"sort"
 	"fmt"
 	"go/types"
 	"strings"
@@ -106,6 +107,35 @@ func verifyFunc(w *World, key string) *FuncResult {
 			v := g.inputValue(st, "fv_"+fv.Name(), fv.Type(), res)
 			bindings = append(bindings, v)
 			params[fv.Name()] = v
+		}
+		// positional names of the contract header: aliases for renamed receiver / parameters
+		g.alias = map[string]string{}
+		if len(fc.ParamNames) == len(fn.Params) {
+			for i, p := range fn.Params {
+				if n := fc.ParamNames[i]; n != p.Name() && n != "" && n != "_" {
+					if _, clash := params[n]; !clash {
+						params[n] = args[i]
+						g.alias[n] = p.Name()
+						g.note(fmt.Sprintf("the contract's parameter name %s is bound by position to %s", n, p.Name()))
+					}
+				}
+			}
+		}
+		// locals name=k: the k-th named local by position, when no local of that name exists any more
+		if len(fc.Locals) > 0 {
+			named := namedLocals(fn)
+			have := map[string]bool{}
+			for _, a := range named {
+				have[a.Comment] = true
+			}
+			for n, k := range fc.Locals {
+				if !have[n] && k >= 0 && k < len(named) {
+					if _, isParam := params[n]; !isParam {
+						g.alias[n] = named[k].Comment
+						g.note(fmt.Sprintf("the contract's local name %s is bound by position (#%d) to %s", n, k, named[k].Comment))
+					}
+				}
+			}
 		}
 		g.entry = st.clone()
 		g.entryParams = params
@@ -460,4 +490,31 @@ func verifyLemma(w *World, name string) *FuncResult {
 	res.Axioms = append(append([]string{}, g.extraAxioms...), g.finalAxioms()...)
 	res.GenMs = time.Since(t0).Milliseconds()
 	return res
+}
+
+// namedLocals: the function's named local variables (naive-form allocs carrying a source name), by position.
+func namedLocals(fn *ssa.Function) []*ssa.Alloc {
+	var out []*ssa.Alloc
+	for _, b := range fn.Blocks {
+		for _, in := range b.Instrs {
+			if a, ok := in.(*ssa.Alloc); ok && a.Comment != "" && a.Pos().IsValid() {
+				out = append(out, a)
+			}
+		}
+	}
+	for _, a := range fn.Locals {
+		if a.Comment != "" && a.Pos().IsValid() {
+			dup := false
+			for _, o := range out {
+				if o == a {
+					dup = true
+				}
+			}
+			if !dup {
+				out = append(out, a)
+			}
+		}
+	}
+	sort.Slice(out, func(i, j int) bool { return out[i].Pos() < out[j].Pos() })
+	return out
 }
